@@ -4,6 +4,8 @@ import (
 	"encoding/json"
 	"fmt"
 	"path/filepath"
+	"sync"
+	"sync/atomic"
 	"time"
 )
 
@@ -101,6 +103,41 @@ func runClock(c *runCtx) {
 			}
 		}
 		time.Sleep(250 * time.Millisecond)
+	}
+	// the same under load: eight clients read as fast as they can for two seconds (the loop ticks many times per
+	// millisecond), then the server's timestamps must still be the time of day
+	{
+		var wg sync.WaitGroup
+		stop := time.Now().Add(2 * time.Second)
+		var n atomic.Int64
+		for cl := 0; cl < 8; cl++ {
+			wg.Add(1)
+			go func() {
+				defer wg.Done()
+				for time.Now().Before(stop) {
+					srv.JSON("GET", "/promises/clock.p0", nil, nil)
+					n.Add(1)
+				}
+			}()
+		}
+		wg.Wait()
+		c.rep.HitN("clock.requests-in-load-phase", int(n.Load()))
+		sent := time.Now().UnixMilli()
+		rp := srv.JSON("POST", "/locks/acquire", nil, map[string]any{"resourceId": "clock.after-load", "executionId": "e", "processId": "p", "ttl": 10000})
+		recv := time.Now().UnixMilli()
+		var l struct {
+			ExpiresAt int64 `json:"expiresAt"`
+		}
+		if rp.Err == nil && rp.Status == 201 && json.Unmarshal(rp.Body, &l) == nil {
+			inWindow(fmt.Sprintf("lease start of a lock acquired after %d requests in 2 s", n.Load()), l.ExpiresAt-10000, sent, recv)
+		}
+		sent = time.Now().UnixMilli()
+		rp = srv.JSON("POST", "/promises", nil, map[string]any{"id": "clock.after-load", "timeout": sent + 3600_000})
+		recv = time.Now().UnixMilli()
+		var v promiseView
+		if rp.Err == nil && rp.Status == 201 && json.Unmarshal(rp.Body, &v) == nil {
+			inWindow(fmt.Sprintf("createdOn of a promise created after %d requests in 2 s", n.Load()), v.CreatedOn, sent, recv)
+		}
 	}
 	if c.prop == "C04" {
 		// only the clock times a promise out: a completion request naming the timed-out state before the deadline is refused
